@@ -1,0 +1,178 @@
+//go:build verif
+
+// Contracts for package parse (machine-checked by /verif/bin/stickvc; comment-only file).
+package parse
+
+// ---------------------------------------------------------------------------------------
+// Layer L — lexer
+//
+// linv: the cursor invariant. start is the emission point, pos the read cursor.
+//@ pred linv(l *lexer) = 0 <= l.start && l.start <= l.pos && l.pos <= len(l.input)
+// sinv: between state functions everything read so far has been emitted.
+//@ pred sinv(l *lexer) = linv(l) && l.start == l.pos
+//@ pred spaceByte(b int) = b == ' ' || b == '\t' || b == '\n' || b == '\r'
+//@ pred digitByte(b int) = '0' <= b && b <= '9'
+//@ pred letterByte(b int) = ('a' <= b && b <= 'z') || ('A' <= b && b <= 'Z')
+//@ pred nameByte(b int) = b == '_' || digitByte(b) || letterByte(b)
+//@ pred punctByte(b int) = b == ',' || b == '|' || b == '?' || b == ':' || b == '.' || b == '='
+//@ pred cur(l *lexer) = l.input[l.pos]
+//@ pred more(l *lexer) = l.pos < len(l.input)
+// statepre: what each state function may assume about the text under the cursor.
+//@ pred statepre(f func, l *lexer) =
+//@+    (f == fnid("parse.lexCommentOpen") ==> hasPrefix(l.input[l.pos:], "{#"))
+//@+ && (f == fnid("parse.lexTagOpen") ==> hasPrefix(l.input[l.pos:], "{%"))
+//@+ && (f == fnid("parse.lexPrintOpen") ==> hasPrefix(l.input[l.pos:], "{{"))
+//@+ && (f == fnid("parse.lexTagClose") ==> hasPrefix(l.input[l.pos:], "%}") || hasPrefix(l.input[l.pos:], "-%}"))
+//@+ && (f == fnid("parse.lexPrintClose") ==> hasPrefix(l.input[l.pos:], "}}") || hasPrefix(l.input[l.pos:], "-}}"))
+//@+ && (f == fnid("parse.lexSpace") ==> more(l) && spaceByte(cur(l)))
+//@+ && (f == fnid("parse.lexNumber") ==> more(l) && digitByte(cur(l)))
+//@+ && (f == fnid("parse.lexName") ==> more(l) && nameByte(cur(l)))
+//@+ && (f == fnid("parse.lexPunctuation") ==> more(l) && punctByte(cur(l)))
+//@+ && (f == fnid("parse.lexOpenParens") ==> more(l))
+//@+ && (f == fnid("parse.lexCloseParens") ==> more(l))
+//@+ && (f == fnid("parse.lexString") ==> more(l) && (cur(l) == '"' || cur(l) == '\''))
+// measure: lexicographic (bytes left, rank of the state) packed into one integer. lexExpression and
+// lexData may hand over without consuming; every other state consumes at least one byte.
+//@ pred rank(f func) = ite(f == fnid("parse.lexExpression"), 3, ite(f == fnid("parse.lexData"), 2, 1))
+//@ pred measure(f func, l *lexer) = 4 * (len(l.input) - l.pos) + rank(f)
+
+//@ func functype:parse.stateFn
+//@   requires sinv: sinv(a0)
+//@   requires statepre: statepre(fn, a0)
+//@   ensures mono: linv(a0) && a0.pos >= old(a0.pos) && a0.start >= old(a0.start)
+//@   ensures input: sameview(a0.input, old(a0.input)) || (result == nil && a0.mode == modeClosed)
+//@   ensures next: result != nil ==> sinv(a0) && statepre(result, a0)
+//@   ensures progress: result != nil ==> measure(result, a0) < old(measure(fn, a0))
+
+//@ func parse.(*lexer).tokenize
+//@   requires sinv(l)
+//@   loop 1 invariant st: l.state != nil ==> sinv(l) && statepre(l.state, l)
+//@   loop 1 decreases ite(l.state == nil, 0, measure(l.state, l))
+
+//@ func parse.(*lexer).next
+//@   requires linv(l)
+//@   ensures inv: linv(l)
+//@   ensures adv: old(l.pos) < len(l.input) ==> l.pos == old(l.pos) + 1 && sameview(val, l.input[old(l.pos):l.pos])
+//@   ensures eof: old(l.pos) >= len(l.input) ==> l.pos == old(l.pos) && len(val) == 0
+
+//@ func parse.(*lexer).backup
+//@   requires room: l.pos > l.start
+//@   ensures l.pos == old(l.pos) - 1
+
+//@ func parse.(*lexer).peek
+//@   requires linv(l)
+//@   ensures val: l.pos < len(l.input) ==> sameview(result, l.input[l.pos:l.pos+1])
+//@   ensures eof: l.pos >= len(l.input) ==> len(result) == 0
+//@   pure
+
+// C14: what counts as a blank inside delimiters — space, tab, newline and carriage return.
+//@ func parse.isSpace
+//@   ensures spec: result == (len(str) == 1 && spaceByte(str[0]))
+
+//@ func parse.isNumeric
+//@   ensures one: len(str) == 1 ==> result == digitByte(str[0])
+//@   ensures empty: len(str) == 0 ==> result
+//@   loop 1 invariant seen: 0 <= rangepos() && (rangepos() >= 1 && len(str) == 1 ==> digitByte(str[0]))
+
+//@ func parse.isName
+//@   ensures one: len(str) == 1 ==> result == nameByte(str[0])
+//@   ensures empty: len(str) == 0 ==> result
+//@   loop 1 invariant seen: 0 <= rangepos() && (rangepos() >= 1 && len(str) == 1 ==> nameByte(str[0]))
+
+//@ func parse.isPunctuation
+//@   ensures one: len(str) == 1 ==> result == punctByte(str[0])
+//@   ensures empty: len(str) == 0 ==> result
+//@   loop 1 invariant seen: 0 <= rangepos() && (rangepos() >= 1 && len(str) == 1 ==> punctByte(str[0]))
+
+// isAlpha on ASCII strings: true iff every byte is a letter.
+//@ func parse.isAlpha
+//@   requires ascii: forall i :: 0 <= i && i < len(s) ==> s[i] < 128
+//@   ensures spec: result == (forall i :: 0 <= i && i < len(s) ==> letterByte(s[i]))
+//@   loop 1 invariant seen: 0 <= rangepos() && rangepos() <= len(s) && (forall i :: 0 <= i && i < rangepos() ==> letterByte(s[i]))
+
+//@ func parse.(*lexer).emit
+//@   requires linv(l)
+//@   ensures inv: linv(l)
+//@   ensures start: l.start == l.pos && l.pos == old(l.pos)
+//@   ensures sent: sentcount(l.tokens) == old(sentcount(l.tokens)) + 1
+//@   ensures tok: sent(l.tokens, old(sentcount(l.tokens)), "token").tokenType == t
+//@   ensures val: sameview(sent(l.tokens, old(sentcount(l.tokens)), "token").value, l.input[old(l.start):l.pos])
+//@   ensures pos: sent(l.tokens, old(sentcount(l.tokens)), "token").Line == old(l.line) && sent(l.tokens, old(sentcount(l.tokens)), "token").Offset == old(l.offset)
+//@   ensures input: sameview(l.input, old(l.input)) && l.parens == old(l.parens)
+//@   ensures mode: t != tokenEOF ==> l.mode == old(l.mode)
+//@   ensures closed: t == tokenEOF ==> l.mode == modeClosed
+
+//@ func parse.(*lexer).errorf
+//@   ensures nil: result == nil
+//@   ensures sent: sentcount(l.tokens) == old(sentcount(l.tokens)) + 1
+//@   ensures tok: sent(l.tokens, old(sentcount(l.tokens)), "token").tokenType == tokenError
+
+//@ func parse.lexData
+//@   implements functype:parse.stateFn
+//@   loop 1 invariant linv(l) && l.start == old(l.start) && l.pos >= old(l.pos) && sameview(l.input, old(l.input)) && l.mode == old(l.mode)
+//@   loop 1 decreases len(l.input) - l.pos
+
+//@ func parse.lexExpression
+//@   implements functype:parse.stateFn
+
+//@ func parse.(*lexer).tryLexOperator
+//@   requires sinv(l)
+//@   ensures inv: sinv(l) && sameview(l.input, old(l.input)) && l.mode == old(l.mode)
+//@   ensures taken: result ==> l.pos > old(l.pos)
+//@   ensures not: !result ==> l.pos == old(l.pos)
+// C14: an alphabetic operator is recognised exactly when the byte after it is not a name character
+// (any blank, a bracket, a delimiter or the end of input) — independent of the kind of whitespace.
+//@   asserts boundary: (forall i :: 0 <= i && i < len(op) ==> letterByte(op[i])) && len(op) > 0 ==>
+//@+      (result == (old(l.pos) + len(op) >= len(l.input) || !nameByte(l.input[old(l.pos) + len(op)])))
+
+//@ func parse.lexSpace
+//@   implements functype:parse.stateFn
+//@   loop 1 invariant linv(l) && l.start == old(l.start) && l.pos >= old(l.pos) && sameview(l.input, old(l.input)) && l.mode == old(l.mode)
+//@   loop 1 decreases len(l.input) - l.pos
+// C14: a maximal run of blanks becomes exactly one WHITESPACE token
+//@   ensures maximal: !more(l) || !spaceByte(cur(l))
+
+//@ func parse.lexNumber
+//@   implements functype:parse.stateFn
+//@   loop 1 invariant linv(l) && l.start == old(l.start) && l.pos >= old(l.pos) && sameview(l.input, old(l.input)) && l.mode == old(l.mode)
+//@   loop 1 decreases len(l.input) - l.pos
+
+//@ func parse.lexPunctuation
+//@   implements functype:parse.stateFn
+//@   loop 1 invariant linv(l) && l.start == old(l.start) && l.pos >= old(l.pos) && sameview(l.input, old(l.input)) && l.mode == old(l.mode)
+//@   loop 1 decreases len(l.input) - l.pos
+
+//@ func parse.lexName
+//@   implements functype:parse.stateFn
+//@   loop 1 invariant linv(l) && l.start == old(l.start) && l.pos >= old(l.pos) && sameview(l.input, old(l.input)) && l.mode == old(l.mode)
+//@   loop 1 decreases len(l.input) - l.pos
+
+//@ func parse.lexOpenParens
+//@   implements functype:parse.stateFn
+
+//@ func parse.lexCloseParens
+//@   implements functype:parse.stateFn
+
+//@ func parse.lexCommentOpen
+//@   implements functype:parse.stateFn
+
+//@ func parse.lexTagOpen
+//@   implements functype:parse.stateFn
+
+//@ func parse.lexTagClose
+//@   implements functype:parse.stateFn
+
+//@ func parse.lexPrintOpen
+//@   implements functype:parse.stateFn
+
+//@ func parse.lexPrintClose
+//@   implements functype:parse.stateFn
+
+//@ func parse.lexString
+//@   implements functype:parse.stateFn
+//@   loop 1 invariant linv(l) && l.start == l.pos && l.pos >= entry(l.pos) && l.start >= old(l.start) && sameview(l.input, entry(l.input))
+//@   loop 1 decreases len(l.input) - l.pos
+//@   loop 2 invariant mono: linv(l) && l.pos >= entry(l.pos) && l.start >= entry(l.start)
+//@   loop 2 invariant input: sameview(l.input, entry(l.input)) || (ins == nil && l.mode == modeClosed)
+//@   loop 2 invariant st: ins != nil ==> sinv(l) && statepre(ins, l)
+//@   loop 2 decreases ite(ins == nil, 0, measure(ins, l))
